@@ -137,13 +137,27 @@ Theorem C01_two_step_names_own_pid : forall w o s ks, has_obj w o = true ->
 Proof. exact race_names_own_pid. Qed.
 Print Assumptions C01_two_step_names_own_pid.
 
-(* process_iter(): after ANY history of atomic calls the branch added by b70d950 (replace a cached instance whose
-   _pid_reused is set) is never taken -- the call equals the loop without that branch.  (Every cached object with
-   _pid_reused has its PID in _pids_reused, and those PIDs are dropped from the copy before the loop.) *)
-Theorem C01_process_iter_stale_branch_unreachable : forall h,
+(* process_iter(): after ANY history in which no generator is resumed between other calls (events otherwise
+   arbitrary, well formed or not; list(process_iter()) is one call) the branch added by b70d950 (replace a cached
+   instance whose _pid_reused is set) is never taken -- the call equals the loop without that branch.  (Every
+   cached object with _pid_reused has its PID in _pids_reused, and those PIDs are dropped from the copy first.) *)
+Theorem C01_process_iter_stale_branch_unreachable : forall h, overlap_free h = true ->
   proc_iter (view_of (run h)) (ms (run h)) = proc_iter_nostale (view_of (run h)) (ms (run h)).
 Proof. exact stale_branch_unreachable. Qed.
 Print Assumptions C01_process_iter_stale_branch_unreachable.
+
+(* ... and with a generator suspended across an is_running() call the branch IS taken: the cached object 1 of the
+   recycled PID 5 is replaced by a new object 2 for the new process; object 1, which the caller still holds, keeps
+   its binding (incarnation 1), is not running and differs from object 2 *)
+Theorem C01_process_iter_stale_branch_reached :
+  wf_hist ex_overlap = true
+  /\ outcome_of (run ex_overlap) (EC (IterNext 0)) = Val (RObj 2)
+  /\ g_inc (next (run ex_overlap) (EC (IterNext 0))) 1 = 1
+  /\ g_inc (next (run ex_overlap) (EC (IterNext 0))) 2 = 2
+  /\ outcome_of (next (run ex_overlap) (EC (IterNext 0))) (EC (IsRunning 1)) = Val (RBool false)
+  /\ outcome_of (next (run ex_overlap) (EC (IterNext 0))) (EC (EqC 1 2)) = Val (RBool false).
+Proof. exact stale_branch_reached. Qed.
+Print Assumptions C01_process_iter_stale_branch_reached.
 
 (* the pid attribute of an object is the PID its process was started under, and fits a pid_t *)
 Theorem C01_obj_pid_is_creation_pid : forall h o,
